@@ -253,10 +253,13 @@ def go_test(case_file, pkg='root', run='TestVerif', extra_overlay=None, race=Fal
     tdir = os.path.join(REPO, PKGDIR[pkg])
     tpl = os.path.join(VERIF, 'replay_templates')
     for fn in sorted(os.listdir(tpl)):
+        if fn == 'field_trace_stub.go':
+            continue
         if fn.endswith('.go') and (pkg == 'root') == (not fn.startswith(('field_', 'scalar_'))):
             if pkg != 'root' and not fn.startswith(pkg + '_'):
                 continue
             ov['Replace'][os.path.join(tdir, 'zz_verif_' + fn)] = os.path.join(tpl, fn)
+    ov['Replace'][os.path.join(REPO, PKGDIR['field'], 'zz_verif_trace_stub.go')] = os.path.join(tpl, 'field_trace_stub.go')
     for virt, real in (extra_overlay or {}).items():
         ov['Replace'][virt] = real
     work = os.path.join(VERIF, 'work')
